@@ -59,3 +59,25 @@ _prop('C15',
       trusted=['doc/documentation/format_versions/biom-2.1.rst is the '
                'specification'],
       assumptions=[])
+
+from . import rules_text  # noqa: E402
+
+_prop('C02',
+      rules=[rules_text.rule_ta_escape, rules_text.rule_dumps_encoder,
+             rules_text.rule_ta_lossy_json, rules_text.rule_sb_jsonpaths,
+             rules_text.rule_ag_json_writer],
+      minima={'TA-ESCAPE': 24, 'TA-ENCODER': 5, 'TA-LOSSY': 3,
+              'SB-JSONPATHS': 12, 'AG-JSONKEYS': 25},
+      rule_texts=rules_text.RULE_TEXT,
+      trusted=['json.dumps escapes every string it is given and emits valid '
+               'JSON; repr/str of a Python float is the shortest string that '
+               're-parses to the same double; %f keeps six decimals'],
+      assumptions=[])
+
+_prop('C03',
+      rules=[rules_text.rule_tsv, rules_text.rule_tsv_reader,
+             rules_text.rule_ag_tsvsep],
+      minima={'TA-LOSSY': 3, 'SB-TSVPATHS': 1, 'AX-FWD': 8, 'AG-TSVSEP': 3},
+      rule_texts=rules_text.RULE_TEXT,
+      trusted=['str(numpy.float64) is the shortest round-trip repr'],
+      assumptions=[])
